@@ -408,9 +408,9 @@ impl Scenario for C12 {
 fn main() {
     main_for(|tier| {
         let thorough = tier == "thorough";
-        let mut o = Opts::new(tier, if thorough { 5 } else { 4 });
+        let mut o = Opts::new(tier, if thorough { 7 } else { 4 });
         o.min_depth = 3;
-        o.wall_cap_s = if thorough { 2400.0 } else { 100.0 };
+        o.wall_cap_s = if thorough { 600.0 } else { 100.0 };
         o.rule = "all sequences over mint (owner), mint_from (constructor minter, non-minter), transfer, approve (expiration = ledger-1, ledger, ledger+1, ledger+2, ledger+20), transfer_from, burn, burn_from with amounts chosen relative to the state {-1, 0, 1, 5, balance, balance+1, allowance, allowance+1, i128::MAX}, add/remove minter (incl. removing the owner's own minter role), set_admin / transfer_ownership, advance 1, 2 or 17 ledgers; accounts A, B, C; after every new state balance() of all accounts, allowance() of all 9 ordered pairs, is_minter, owner() and sum(balances) == minted - burned are compared with the reference token".into();
         (C12 { thorough }, o)
     });
